@@ -341,7 +341,12 @@ def finish(ctx, spec):
     if code:
         rel = os.path.relpath(replay, OUT)
         if unlisted:
-            log("failing input: %s" % json.dumps(unlisted[0], default=str)[:1500])
+            seen_what = set()
+            for h in unlisted:  # one example per distinct kind of failure, at most three
+                if h["what"] in seen_what or len(seen_what) >= 3:
+                    continue
+                seen_what.add(h["what"])
+                log("failing input: %s" % json.dumps(h, default=str)[:1500])
             log("VIOLATION property=%s replay=%s" % (ctx.pid, rel))
         else:
             for b in broken[:5]:
